@@ -35,6 +35,10 @@ Definition maxAlloc : Z := 2 ^ 48.
 Definition alloc (n sz : Z) : M unit :=
   if (n <? 0) || (maxAlloc <? n * sz) then (Panic, [n * sz]) else (Ok tt, [n * sz]).
 
+(* a request whose size is not computed from header fields by the code under test
+   (bytes.Buffer growth, append): recorded, cannot panic *)
+Definition note_alloc (n : Z) : M unit := (Ok tt, [n]).
+
 (* Go int is 64 bit two's complement. *)
 Definition i64 (x : Z) : Z := wrapS 64 x.
 (* 1 << uint(k) on int: 0 for k >= 64 *)
